@@ -53,7 +53,8 @@ var FaultKinds = []string{"husb-missing", "wife-missing", "chil-missing", "husb-
 	"chil-empty", "no-name", "name-without-surname", "name-empty", "own-parent", "own-spouse", "own-grandparent", "duplicate-individual",
 	"duplicate-family", "individual-and-family-share-pointer", "family-without-members", "source-without-title", "famc-missing", "fams-missing",
 	"date-garbage", "date-empty", "date-partial", "date-reversed-range", "date-far-future", "surname-digit", "surname-symbol", "surname-multibyte",
-	"surname-only-punctuation", "only-faulty-people", "undated-people"}
+	"surname-only-punctuation", "only-faulty-people", "undated-people",
+	"lower-case-tags", "person-named-like-place"}
 
 type indi struct {
 	ptr, given, sur  string
@@ -174,6 +175,14 @@ func Materialise(base int, faults []string) string {
 		case "surname-only-punctuation":
 			people[len(people)-1].sur = "?"
 			people[0].given = "(?)"
+		case "lower-case-tags":
+			// tags that have a node type of their own, not written in upper case (the decoder takes any word as a tag)
+			people[len(people)-1].extra = append(people[len(people)-1].extra, "1 birt", "2 date 1 Jan 1900", "2 plac Paris", "1 Name lower /Case/", "1 sex M", "1 deat", "2 Date 1950", "1 resi", "1 fams @F1@")
+			people[0].extra = append(people[0].extra, "1 bapm", "2 DATE 4 Sep 1843", "1 buri", "1 even x", "1 Sour @S1@")
+		case "person-named-like-place":
+			// the page of a person and the page of a place want the same name
+			people[len(people)-1].given, people[len(people)-1].sur = "London", "England"
+			people[1].given, people[1].sur = "Paris", ""
 		case "undated-people":
 			// the people the cyclic faults are built around have no birth, baptism, death or burial at all
 			people[0].birth, people[0].death, people[1].birth, people[1].death = "", "", "", ""
@@ -217,6 +226,9 @@ func Materialise(base int, faults []string) string {
 		}
 		for _, f := range p.famc {
 			fmt.Fprintf(&b, "1 FAMC @%s@\n", f)
+		}
+		for _, l := range p.extra {
+			b.WriteString(l + "\n")
 		}
 	}
 	ref := func(tag, v string) {
